@@ -231,7 +231,8 @@ def run_tlc(module: str, cfg: str, env: dict | None = None, workers: int = 1, ti
     try:
         meta = scratch / f"meta-{module}-{time.time_ns()}"
         cfgp = cfg if os.path.isabs(cfg) else str(SPEC / cfg)
-        cmd = ["java", "-XX:+UseParallelGC", "-Xss16m"] + (java_opts or []) + ["-cp", TLC_CP, "tlc2.TLC",
+        heap = ["-Xmx3g"] if workers == 1 else ["-Xmx12g"]     # 16 single-worker shards run side by side
+        cmd = ["java", "-XX:+UseParallelGC", "-Xss16m"] + heap + (java_opts or []) + ["-cp", TLC_CP, "tlc2.TLC",
                "-workers", str(workers), "-metadir", str(meta), "-noGenerateSpecTE", "-config", cfgp]
         if extra:
             cmd += extra
